@@ -1547,10 +1547,11 @@ void OPNMIDIplay::killOrEvacuate(size_t from_channel,
 
 void OPNMIDIplay::panic()
 {
-    for(uint8_t chan = 0; chan < m_midiChannels.size(); chan++)
+    // 16 device names in a file give 256 MIDI channels: an 8-bit counter would never reach the end
+    for(size_t chan = 0; chan < m_midiChannels.size() && chan < 256; chan++)
     {
         for(uint8_t note = 0; note < 128; note++)
-            realTime_NoteOff(chan, note);
+            realTime_NoteOff(static_cast<uint8_t>(chan), note);
     }
 }
 
